@@ -54,6 +54,24 @@ type Ctx struct {
 	distinct map[string]struct{}
 	samples  []string
 	Notes    map[string]interface{}
+	// Tap, when set, sees every Case (entry point, arguments, observed output) — used by C07 to harvest
+	// the valid encodings the other properties' generators build.
+	Tap func(fn string, args []Val, out Val)
+	// Quiet: run cases without recording them (harvest mode)
+	Quiet bool
+}
+
+// inflight records the call being executed, so that a crash the harness cannot recover from (fatal stack
+// overflow, out of memory, a hang killed by the time limit) still names its input.
+var inflight *os.File
+
+func noteInflight(kind, name, args string) {
+	if inflight == nil {
+		return
+	}
+	b := []byte(kind + "\t" + name + "\t" + args + "\n")
+	inflight.WriteAt(b, 0)
+	inflight.Truncate(int64(len(b)))
 }
 
 // N picks a budget by tier.
@@ -89,8 +107,18 @@ func (c *Ctx) Case(fn string, args ...Val) Val {
 	if !ok {
 		panic("unknown impl " + fn)
 	}
+	argStr := L(args...).String()
+	if !c.Quiet {
+		noteInflight("case", fn, argStr)
+	}
 	v := callImpl(f, args)
-	line := fn + " " + L(args...).String() + " => " + v.String()
+	if c.Tap != nil {
+		c.Tap(fn, args, v)
+	}
+	if c.Quiet {
+		return v
+	}
+	line := fn + " " + argStr + " => " + v.String()
 	if _, seen := c.distinct[line]; !seen {
 		c.distinct[line] = struct{}{}
 		fmt.Fprintln(c.out, line)
@@ -114,6 +142,10 @@ func (c *Ctx) Check(name string, args ...Val) bool {
 	if !ok {
 		panic("unknown oracle " + name)
 	}
+	if c.Quiet {
+		return true
+	}
+	noteInflight("oracle", name, L(args...).String())
 	key, detail := callOracle(f, args)
 	c.NChecks++
 	c.Hist["oracle:"+name]++
@@ -217,6 +249,7 @@ func main() {
 	if err != nil {
 		panic(err)
 	}
+	inflight, _ = os.Create(filepath.Join(*outDir, "inflight.txt"))
 	c := &Ctx{Prop: *prop, Tier: *tier, Rng: NewRng(*seed), out: bufio.NewWriterSize(cf, 1<<20),
 		Hist: map[string]int{}, distinct: map[string]struct{}{}, Notes: map[string]interface{}{}}
 	t0 := time.Now()
@@ -225,6 +258,10 @@ func main() {
 	}
 	c.out.Flush()
 	cf.Close()
+	if inflight != nil {
+		inflight.Close()
+		os.Remove(filepath.Join(*outDir, "inflight.txt"))
+	}
 
 	ff, _ := os.Create(filepath.Join(*outDir, "failures.jsonl"))
 	enc := json.NewEncoder(ff)
